@@ -413,11 +413,116 @@ def rule_r4(F, rep):
                               % (fname, tok, sorted(map(str, res)), sorted(map(str, exp))), fn.loc)
 
 
+SUFFIX_STARTS = ("Dot", "LeftBracket", "LeftParen", "LeftBrace")
+
+
+def rule_r5(F, rep):
+    R = rep.rule("C15.R5", "postfix forms chain without restriction: parse_suffix_expr returns its expression only from an "
+                 "iteration in which none of `.`, `[`, `(`, `{` was found; after any consumed suffix (a call with `tailstrict` "
+                 "included) the loop looks for the next one, so `e(args) tailstrict.f` parses like `(e(args) tailstrict).f`")
+    fn = F.fn("<%s>::parse_suffix_expr" % PARSER)
+    rep.fn(fn)
+    n = 0
+    for first in (None,) + SUFFIX_STARTS:
+        def hook(w, bb, t, env, args, first=first):
+            nm = callee_name(t) or ""
+            if nm == "<%s>::eat_simple" % PARSER:
+                a = args[1]
+                if isinstance(a, tuple) and a[0] == "var" and a[2] in SUFFIX_STARTS:
+                    if a[2] == first and not env.get("#eaten"):
+                        env["#eaten"] = 1
+                        return ("var", OPTION, "Some")
+                    return ("var", OPTION, "None")
+            return None
+        w = kwalk.Walker(F, fn.body, call_result=hook, want_ret=True, ret_prefixes=("0",))
+        outs = w.run(0, {})
+        rep.states += w.states_explored
+        kinds = set()
+        for kind, marks, ret in outs:
+            if kind != "return":
+                continue
+            top = dict(ret or ()).get("0")
+            kinds.add(top[2] if isinstance(top, tuple) and top[0] == "var" else "?")
+        n += 1
+        if first is None:
+            ok = "Ok" in kinds
+            rep.ob(R, "no-suffix|returns", ok, {"returns": sorted(kinds)})
+            if not ok:
+                rep.violation(R, "parse_suffix_expr|no-suffix|never-returns", "with no suffix token ahead parse_suffix_expr does not "
+                              "return its expression (returns: %s)" % sorted(kinds), fn.loc)
+        else:
+            # after consuming this suffix the only way out of the same iteration is an error; Ok needs another look at the input.
+            # (the walk continues into the next iteration, where every probe answers None -> Ok is then legitimate; so the test is
+            #  made on the first iteration only: stop at the loop head)
+            pass
+    # first-iteration test: forbid reaching an Ok return after a consumed suffix without passing the loop head again
+    body = fn.body
+    from . import cfg
+    heads = cfg.loop_heads(body.succ_map(), 0) if hasattr(cfg, "loop_heads") else None
+    if not heads:
+        # fall back: the loop head is the target of a back edge in DFS order
+        heads = set()
+        seen, stack, onstack = set(), [(0, iter(body.succs(0)))], {0}
+        seen.add(0)
+        while stack:
+            b, it = stack[-1]
+            adv = False
+            for s2 in it:
+                if s2 in onstack:
+                    heads.add(s2)
+                elif s2 not in seen and not body.blocks[s2]["cleanup"]:
+                    seen.add(s2)
+                    onstack.add(s2)
+                    stack.append((s2, iter(body.succs(s2))))
+                    adv = True
+                    break
+            if not adv:
+                onstack.discard(b)
+                stack.pop()
+    for first in SUFFIX_STARTS:
+        def hook(w, bb, t, env, args, first=first):
+            nm = callee_name(t) or ""
+            if nm == "<%s>::eat_simple" % PARSER:
+                a = args[1]
+                if isinstance(a, tuple) and a[0] == "var" and a[2] in SUFFIX_STARTS:
+                    if a[2] == first:
+                        env["#eaten"] = 1
+                        return ("var", OPTION, "Some")
+                    return ("var", OPTION, "None")
+            return None
+
+        def on_term(w, bb, t, env):
+            # stop when the loop head is reached again after a suffix has been consumed
+            if bb in heads and env.get("#eaten"):
+                return kwalk.STOP
+            return None
+        w = kwalk.Walker(F, body, call_result=hook, on_term=on_term, want_ret=True, ret_prefixes=("0",))
+        outs = w.run(0, {})
+        rep.states += w.states_explored
+        oks = 0
+        for kind, marks, ret in outs:
+            if kind != "return":
+                continue
+            top = dict(ret or ()).get("0")
+            if isinstance(top, tuple) and top[0] == "var" and top[2] == "Ok":
+                oks += 1
+        n += 1
+        ok = oks == 0
+        rep.ob(R, "after|%s|continues" % first, ok, {"suffix": first, "ok_returns_in_same_iteration": oks})
+        if not ok:
+            rep.violation(R, "parse_suffix_expr|%s|returns-without-looking-for-more" % first,
+                          "after consuming a suffix that starts with %s, parse_suffix_expr can return without looking for a further "
+                          "suffix: `e<suffix>.f`, `e<suffix>[i]`, ... are then rejected or grouped differently from their "
+                          "parenthesised form" % first, fn.loc)
+    rep.floor(R, n, 9, "suffix scenarios")
+
+
 def run(F, rep, tier):
     rule_r1(F, rep)
     rule_r2(F, rep)
     rule_r3(F, rep)
     rule_r4(F, rep)
+    rule_r5(F, rep)
     rep.assume("print/re-parse stability is not decided (no printer exists in the repository); node span containment "
                "is not decided")
     return EXPLANATION
